@@ -303,7 +303,7 @@ theorem processMessage_err_no_events (env : Env) (s : PState) (p : Bytes) (w : W
         · simp only [h1, h2, ↓reduceIte] at h
           split at h <;> simp at h
 
-theorem attempts_errBack (pn : Name) (m : Msg) (b : Body) : attempts (errBack pn m b) = [] := by
+theorem attempts_errBack (fits : Bool) (pn : Name) (m : Msg) (b : Body) : attempts (errBack fits pn m b) = [] := by
   unfold errBack; split <;> rfl
 
 /-- a well-addressed message from the peer: handed to `deliver_message` exactly once, source rewritten to
@@ -316,7 +316,7 @@ theorem processMessage_valid (env : Env) (s : PState) (p : Bytes) (m : Msg) (pn 
     attempts (processMessage env s p).evs = [rewriteSrc s.alias m] := by
   unfold processMessage
   simp only [hd, hp, hdst, hsrc, ne_eq, not_true_eq_false, ↓reduceIte]
-  have hat : ∀ b, (errBack pn (rewriteSrc s.alias m) b).filterMap Ev.attempt = [] := fun b => attempts_errBack _ _ _
+  have hat : ∀ f b, (errBack f pn (rewriteSrc s.alias m) b).filterMap Ev.attempt = [] := fun f b => attempts_errBack f _ _ _
   split <;> refine ⟨rfl, by dsimp only; split <;> first | rfl | exact hp, by dsimp only; split <;> rfl, by dsimp only; split <;> rfl, ?_⟩ <;>
     simp only [attempts, List.filterMap_cons, Ev.attempt, List.filterMap_nil] <;>
     first | rfl | (rw [show ({ m with src := ⟨s.alias, m.src.obj⟩ } : Msg) = rewriteSrc s.alias m from rfl, hat])
